@@ -561,6 +561,37 @@ def invert_continue_guards(sources: Dict[str, str]) -> Dict[str, str]:
     return out
 
 
+def temp_before_return(sources: Dict[str, str]) -> Dict[str, str]:
+    """`return <expr>` -> `result_f = <expr>; return result_f` for every return of a non-trivial expression."""
+    def conv(body, tmp="result_"):
+        out = []
+        for st in body:
+            for fld in ("body", "orelse", "finalbody"):
+                sub = getattr(st, fld, None)
+                if isinstance(sub, list) and sub and isinstance(sub[0], ast.stmt) and not isinstance(st, (ast.FunctionDef, ast.AsyncFunctionDef, ast.ClassDef)):
+                    setattr(st, fld, conv(sub, tmp))
+            for h in getattr(st, "handlers", []) or []:
+                h.body = conv(h.body, tmp)
+            if isinstance(st, ast.Return) and st.value is not None and not isinstance(st.value, (ast.Name, ast.Constant)):
+                a = ast.Assign(targets=[ast.Name(id=tmp, ctx=ast.Store())], value=st.value)
+                ast.copy_location(a, st)
+                r = ast.Return(value=ast.Name(id=tmp, ctx=ast.Load()))
+                ast.copy_location(r, st)
+                out += [a, r]
+            else:
+                out.append(st)
+        return out
+    res = {}
+    for p, s in sources.items():
+        tree = ast.parse(s)
+        for fn in ast.walk(tree):
+            if isinstance(fn, (ast.FunctionDef, ast.AsyncFunctionDef)):
+                fn.body = conv(fn.body, "result_" + fn.name.strip("_"))
+        ast.fix_missing_locations(tree)
+        res[p] = ast.unparse(tree)
+    return res
+
+
 def rename_all_locals(sources: Dict[str, str]) -> Dict[str, str]:
     out = {}
     for p, s in sources.items():
@@ -630,6 +661,8 @@ def _worker(args):
             overlay = alias_self_context(sources)
         elif m.old == "<invert-continue-guards>":
             overlay = invert_continue_guards(sources)
+        elif m.old == "<temp-before-return>":
+            overlay = temp_before_return(sources)
         elif m.old == "<keywords-at-call-sites>":
             overlay = keywords_at_call_sites(sources)
         elif m.old == "<swap-if-else>":
@@ -677,6 +710,7 @@ GENERIC = [
     M("rename every parameter of every private function / method (keyword arguments at call sites follow)", "", None, "<rename-private-params>", "", kind="equiv"),
     M("alias self.context into a local at the start of every method that only reads it", "", None, "<alias-self-context>", "", kind="equiv"),
     M("loop guards `if c: continue` rewritten as `if not c: <rest of the body>`", "", None, "<invert-continue-guards>", "", kind="equiv"),
+    M("every non-trivial return value goes through a temporary (t = E; return t)", "", None, "<temp-before-return>", "", kind="equiv"),
     M("methods of every class in reverse source order", "", None, "<reverse-methods>", "", kind="equiv"),
     M("swap the branches of every plain if/else under the negated test", "", None, "<swap-if-else>", "", kind="equiv"),
     M("annotate every local that is assigned once (x = v  ->  x: object = v)", "", None, "<annotate-single-assignments>", "", kind="equiv"),
